@@ -159,6 +159,12 @@ func (f *FN) Do(a Action) error {
 		if err := f.L.SignalBarrier("dataStore", "dataStore"); err != nil {
 			return err
 		}
+	case "scan":
+		if err := f.L.RetrieveUntilIdle(f.DA, f.DA.Height()+1); err != nil {
+			return err
+		}
+	case "include":
+		return f.L.SignalBarrier("daIncluder", "daIncluder")
 	case "restart":
 		return f.Restart(true)
 	case "crash-restart":
